@@ -539,8 +539,8 @@ func (c *ClientConn) SubscribeDownstreamChunk(ctx context.Context, alias uint32,
 	case message.QoSUnreliable:
 		return c.subscribeDownstreamChunkUnreliable(ctx, alias)
 	default:
-		// todo, unreachable
-		panic("unsupported QoS")
+		// reachable with a QoS value outside the enumeration: callers hold locks around this call
+		return nil, errors.Errorf("unsupported QoS %v", qoS)
 	}
 }
 
